@@ -58,9 +58,13 @@ def _case(draw):
     import itertools
 
     fp_, prec_, cache_, pth_ = draw(st.sampled_from(list(itertools.product([True, True, False], ["double", "single"], [True, False], [1, 4]))))
+    # halo setting and domain shape in one draw as well: the default halo is max(xmax, ymax), so it is the taller-than-wide
+    # domain that tells a default resolved from one extent only
+    halo_, tall_ = draw(st.sampled_from([("default", False), ("default", True), ("default", True), ("zero", False),
+                                         ("explicit", False), ("explicit", True)]))
     return {
-        "ntow": ntow, "nt": nt, "met": met, "footprint": fp_,
-        "halo": draw(st.sampled_from(["default", "zero", "explicit"])), "precision": prec_,
+        "ntow": ntow, "nt": nt, "met": met, "footprint": fp_, "tall": tall_,
+        "halo": halo_, "precision": prec_,
         "strategy": strat_, "workers": workers_,
         "parent_threads": pth_, "use_cache": cache_,
         # user labels; their sort order has nothing to do with the series order (newest first, unpadded hours,
@@ -104,6 +108,8 @@ def _config(case):
             "int-desc": [40, 30, 20, 10][:nt],
         }.get(style, [f"2024-06-01T{h:02d}:00" for h in range(nt)])  # True (older replay files) / "iso"
     dom = {"nx": 8, "ny": 6, "xmax": 160.0, "ymax": 150.0, "nz": 4, "modes": [8, 6], "ref_lat": 48.0, "ref_lon": 11.0}
+    if case.get("tall"):
+        dom.update(ny=8, ymax=200.0)  # same 20 m x 25 m cells, now taller than wide
     if case.get("modes_kind", "fit") != "fit":
         # one count far above the padded grid, the other below it: the solver then keeps all modes on both axes
         dom["modes"] = [64, 4] if case["modes_kind"] == "x-above" else [4, 64]
@@ -163,7 +169,7 @@ def check_case(case):
     names = [t.name for t in cfg.towers]
     out.label("strategy=" + case["strategy"], f"workers={case['workers']}", f"parent-threads={case['parent_threads']}",
               "cache-on" if case["use_cache"] else "cache-off", "footprint" if case["footprint"] else "dispersion",
-              f"shape={ntow}x{nt}", "halo=" + case["halo"])
+              f"shape={ntow}x{nt}", "halo=" + case["halo"], "domain=" + ("tall" if case.get("tall") else "wide"))
     shutil.rmtree(".bldfm_cache", ignore_errors=True)
 
     # ---- reference: serial, one thread, no cache, no delays
